@@ -163,3 +163,11 @@ contract(f"{T1}::TAP001.get_action", props=["C19"],
              ("idle_before_its_time", "implies(timestep < old(self.next_execution_timestep) or old(self.actions_concluded),"
                                       " result[0] == 'do-nothing' and unchanged())")],
          modifies=["heap"], allocates=True)
+
+# ---- TAP001 reading a port-scan answer that has nothing about the target (blue switched the target off in between): no crash (C01) ---------
+attr_types({"TAP001.network_knowledge": "Dict[str, Any]"})
+contract(f"{T1}::TAP001._scan_action_response_handler#target_found", props=["C01", "C19"], bounded=2,
+         region=("block", {"start": "if self.network_knowledge.get('target_found'):", "count": 1}),
+         types={"self": "TAP001", "scan_results": "Dict[str, Dict[str, List[int]]]"},
+         ensures=[],
+         modifies=["self.network_knowledge{*}"], allocates=True)
